@@ -530,6 +530,8 @@ class SMI(Machine):
                 return SOME([Ref(d0.entries[i], 0), Ref(d0.entries[i], 1)]) if i is not None else NONE()
             if meth == 'contains_key':
                 return self.map_find(d0, args[1]) is not None
+            if meth == 'entry':
+                return ('entry', d0, args[1])
             if meth == 'len':
                 return len(d0.entries)
             if meth == 'is_empty':
@@ -546,6 +548,20 @@ class SMI(Machine):
                     return NONE()
                 d0.order = None
                 return SOME(d0.entries.pop(i)[1])
+        if isinstance(d0, tuple) and d0 and d0[0] == 'entry' and meth in ('or_insert', 'or_insert_with', 'or_default'):
+            _, mp, key = d0
+            i = self.map_find(mp, key)
+            if i is None:
+                if meth == 'or_insert':
+                    v = args[1]
+                elif meth == 'or_insert_with':
+                    v = self.call_closure(args[1], [])
+                else:
+                    raise Unsupported('or_default value for ' + c0)
+                mp.entries.append([key, v])
+                mp.order = None
+                i = len(mp.entries) - 1
+            return Ref(mp.entries[i], 1)
         if c == 'Atomic::new' or c.startswith('AtomicBool::new'):
             return Atomic(a0)
         if isinstance(d0, Atomic):
